@@ -9,6 +9,7 @@ of the exact map), explicit vs implicit to third order, termination under a wall
 import copy
 import json
 import math
+import os
 import random
 import signal
 from fractions import Fraction as Fr
@@ -246,6 +247,21 @@ def run(ctx):
         inner = (slice(None), slice(1, -1))
         diffs.append(float(np.max(np.abs(out[0][inner] - out[1][inner]))))
     ratios = [diffs[0] / diffs[1] if diffs[1] else float("inf"), diffs[1] / diffs[2] if diffs[2] else float("inf")]
+    # "the implicit iteration terminates" - with the operator's DEFAULT tolerance (the drivers above pass their own), on a spatially
+    # varying potential; run in a subprocess so that a non-terminating iteration becomes a verdict instead of a hang
+    import subprocess
+    import sys
+    from harness.core import VERIF
+    try:
+        pr = subprocess.run([sys.executable, "-m", "harness.c12term"], cwd=VERIF, capture_output=True, text=True, timeout=150,
+                            env=dict(os.environ, VERIF_REPO=os.environ.get("VERIF_REPO", "/repo")))
+        term_ok, term_msg = (pr.returncode == 0 and "DONE" in pr.stdout), (pr.stdout + pr.stderr)[-300:]
+    except subprocess.TimeoutExpired:
+        term_ok, term_msg = False, "no result after 150 s (unmodified code: about 3 s)"
+    ctx.count(("implicit-default-tolerance-terminates",))
+    if not term_ok:
+        ctx.violation({"kind": "implicit-iteration-does-not-terminate", "default_tolerance": True},
+                      "three implicit steps with the operator's default tolerance did not complete: %s" % term_msg, {})
     # the grid-level entry points (per-z potential splines, reused by gridStep_SplinesUnchanged) against `step` applied by hand to every
     # local (v, z) plane with the plane's own velocity and potential
     from harness import gridops
